@@ -24,7 +24,11 @@ func (r *runRng) next() uint64 {
 }
 func (r *runRng) n(k int) int { return int(r.next() % uint64(k)) }
 
-type countLogger struct{ writes, bytes int }
+// the logger also implements emulator.Reserver and emulator.Committer (RunUntil treats such loggers specially)
+type countLogger struct{ writes, bytes, reserved, commits int }
+
+func (c *countLogger) Reserve(n int) { c.reserved += n }
+func (c *countLogger) Commit()       { c.commits++ }
 
 func (c *countLogger) Write(p []byte) (int, error) {
 	c.writes++
@@ -81,6 +85,9 @@ func runUntilCmd(args []string) int {
 		}
 		var traj []stepRec
 		maxSteps := 1 + r.n(60)
+		if r.n(5) == 0 {
+			maxSteps = 150 + r.n(100) // budgets beyond 256 cycles
+		}
 		func() {
 			defer func() { recover() }()
 			for i := 0; i < maxSteps+4; i++ {
